@@ -33,18 +33,22 @@ RAW = {
     "paths": {
         "/a": {
             "get": {"operationId": "getA", "tags": ["x"],
-                    "parameters": [{"name": "q", "in": "query", "schema": {"type": "integer"}}],
+                    "parameters": [{"name": "q", "in": "query", "schema": {"type": "integer"}},
+                                   {"name": "r", "in": "query", "schema": {"type": "integer"}}],
                     "responses": {"200": {"description": "OK"}}},
             "post": {"operationId": "postA", "tags": ["x", "y"],
-                     "parameters": [{"name": "q", "in": "query", "schema": {"type": "integer"}}],
+                     "parameters": [{"name": "q", "in": "query", "schema": {"type": "integer"}},
+                                   {"name": "r", "in": "query", "schema": {"type": "integer"}}],
                      "requestBody": {"content": {"application/json": {"schema": {"type": "integer"}}}},
                      "responses": {"200": {"description": "OK"}}},
         },
         "/b": {
             "get": {"operationId": "getB", "tags": ["y"],
-                    "parameters": [{"name": "q", "in": "query", "schema": {"type": "integer"}}],
+                    "parameters": [{"name": "q", "in": "query", "schema": {"type": "integer"}},
+                                   {"name": "r", "in": "query", "schema": {"type": "integer"}}],
                     "responses": {"200": {"description": "OK"}}},
-            "post": {"parameters": [{"name": "q", "in": "query", "schema": {"type": "integer"}}],
+            "post": {"parameters": [{"name": "q", "in": "query", "schema": {"type": "integer"}},
+                                   {"name": "r", "in": "query", "schema": {"type": "integer"}}],
                      "requestBody": {"content": {"application/json": {"schema": {"type": "integer"}}}},
                      "responses": {"200": {"description": "OK"}}},
         },
@@ -434,7 +438,8 @@ def run_impl(world: World, hist, e2e=False):
                                    "ops": [call_all(HookContext(op_), o) for o, op_ in enumerate(world.operations)]}
             generated = None
             if e2e:
-                generated = [draw_one(world, o, test_func, d2, calls, via_create_test=(e2e == "create_test"))
+                generated = [draw_one(world, o, test_func, d2, calls, via_create_test=(e2e == "create_test"),
+                                      explicit={"query": {"r": 1}} if e2e == "as_strategy_partial" else None)
                              for o in range(len(OPS))]
         return {"outs": outs, "attr": attr, "hooks": hooks, "applied": applied, "per_disp": per_disp, "draw": draw,
                 "dispatch": dispatch, "dispatch_all": dispatch_all, "generated": generated}
@@ -455,7 +460,7 @@ def e2e_settings():
     return E2E_SETTINGS
 
 
-def draw_one(world, o, test_func, d2, calls, via_create_test=False):
+def draw_one(world, o, test_func, d2, calls, via_create_test=False, explicit=None):
     """build the REAL strategy of operation `o` (openapi `get_case_strategy`, every container, then `_apply_hooks`),
     let Hypothesis draw one case: the hook calls made, as [hook, operation of the context].
     `via_create_test`: through `create_test`, which finds the test's dispatcher on the test function itself."""
@@ -463,7 +468,7 @@ def draw_one(world, o, test_func, d2, calls, via_create_test=False):
 
     del calls[:]
     try:
-        _draw_one(world, o, test_func, d2, via_create_test)
+        _draw_one(world, o, test_func, d2, via_create_test, explicit)
         ran = [[h, c] for h, c, _ in calls]
     except Exception as e:  # judged by the caller: a consequence of a wrongly built pipeline, or an infrastructure problem
         ran = [[h, c] for h, c, _ in calls] + [[f"raised:{type(e).__name__}: {str(e)[:200]}", o]]
@@ -471,7 +476,7 @@ def draw_one(world, o, test_func, d2, calls, via_create_test=False):
     return ran
 
 
-def _draw_one(world, o, test_func, d2, via_create_test):
+def _draw_one(world, o, test_func, d2, via_create_test, explicit=None):
     from hypothesis import given
 
     if via_create_test:
@@ -485,7 +490,7 @@ def _draw_one(world, o, test_func, d2, via_create_test):
                                                        settings=e2e_settings()))
         test()
     else:
-        strategy = world.operations[o].as_strategy(hooks=d2)
+        strategy = world.operations[o].as_strategy(hooks=d2, **(explicit or {}))
 
         @given(case=strategy)
         @e2e_settings()
@@ -637,7 +642,9 @@ def e2e_mode(idx, e2e_every):
     through `create_test` (which looks the test's dispatcher up on the test function)"""
     if not e2e_every or idx % e2e_every:
         return False
-    return "create_test" if (idx // e2e_every) % 2 else "as_strategy"
+    # "as_strategy_partial": the caller supplies one of the two query parameters itself (as the examples phase and
+    # `as_strategy(query=...)` do): the rest of the location is still generated, through the same hooks
+    return ("as_strategy", "create_test", "as_strategy_partial")[(idx // e2e_every) % 3]
 
 
 def judge(chk, world, hists, mechanism, v25, v26, e2e_every=0):
